@@ -750,6 +750,86 @@ func readerStackFacts(file string) ([3]bool, error) {
 	return facts, nil
 }
 
+func paramNames(fd *ast.FuncDecl) (names []string) {
+	for _, f := range fd.Type.Params.List {
+		for _, n := range f.Names {
+			names = append(names, n.Name)
+		}
+		if len(f.Names) == 0 {
+			names = append(names, "_")
+		}
+	}
+	return names
+}
+
+func fieldTypes(fl *ast.FieldList) (ts []ast.Expr) {
+	if fl == nil {
+		return nil
+	}
+	for _, f := range fl.List {
+		k := len(f.Names)
+		if k == 0 {
+			k = 1
+		}
+		for i := 0; i < k; i++ {
+			ts = append(ts, f.Type)
+		}
+	}
+	return ts
+}
+
+// framingHelper recognises the two framing helpers by their shape:
+//
+//	func expectZeroSize(sz int, err error) error              — body compares its first parameter with 0
+//	func discardOnKafkaError(r *bufio.Reader, size int, err error) (int, error)
+//	                                                          — errors.As(…) and a call f(r, size, size)
+func framingHelper(fd *ast.FuncDecl) string {
+	if fd.Recv != nil || fd.Body == nil {
+		return ""
+	}
+	ps := paramNames(fd)
+	isNamed := func(e ast.Expr, name string) bool { id, ok := e.(*ast.Ident); return ok && id.Name == name }
+	ptypes, rtypes := fieldTypes(fd.Type.Params), fieldTypes(fd.Type.Results)
+	switch {
+	case len(ptypes) == 2 && isNamed(ptypes[0], "int") && isNamed(ptypes[1], "error") && len(rtypes) == 1 && isNamed(rtypes[0], "error"):
+		found := false
+		ast.Inspect(fd.Body, func(n ast.Node) bool {
+			if be, ok := n.(*ast.BinaryExpr); ok && be.Op == token.NEQ {
+				if id, ok := be.X.(*ast.Ident); ok && id.Name == ps[0] {
+					if lit, ok := be.Y.(*ast.BasicLit); ok && lit.Value == "0" {
+						found = true
+					}
+				}
+			}
+			return true
+		})
+		if found {
+			return "expectZeroSize"
+		}
+	case len(ptypes) == 3 && isNamed(ptypes[1], "int") && isNamed(ptypes[2], "error") && len(rtypes) == 2 && isNamed(rtypes[0], "int") && isNamed(rtypes[1], "error"):
+		as, dn := false, false
+		ast.Inspect(fd.Body, func(n ast.Node) bool {
+			if c, ok := n.(*ast.CallExpr); ok {
+				switch f := c.Fun.(type) {
+				case *ast.Ident:
+					if len(c.Args) == 3 && f.Name != "" {
+						a1, ok1 := c.Args[1].(*ast.Ident)
+						a2, ok2 := c.Args[2].(*ast.Ident)
+						dn = dn || (ok1 && ok2 && a1.Name == ps[1] && a2.Name == ps[1])
+					}
+				case *ast.SelectorExpr:
+					as = as || f.Sel.Name == "As"
+				}
+			}
+			return true
+		})
+		if as && dn {
+			return "discardOnKafkaError"
+		}
+	}
+	return ""
+}
+
 func quoteAll(xs []string) string {
 	q := make([]string, len(xs))
 	for i, x := range xs {
@@ -1165,6 +1245,7 @@ func extractConnLegacy(repo, root string) error {
 	}
 	x := &clx{funcs: map[string]*ast.FuncDecl{}, structs: map[string]*ast.StructType{}, memo: map[string]string{}, busy: map[string]bool{}}
 	connFns := map[string]*ast.FuncDecl{}
+	helperAlias := map[string]string{}       // actual name of a framing helper → "expectZeroSize" / "discardOnKafkaError"
 	var rbufUsers []string                   // every function of the package that touches a Conn's read buffer (`….rbuf`)
 	calledBy := map[string]map[string]bool{} // simple name of a callee → qualified names of the functions calling it
 	for _, fn := range files {
@@ -1224,7 +1305,11 @@ func extractConnLegacy(repo, root string) error {
 					if r == "Batch" && dd.Name.Name == "close" {
 						connFns["Batch.close"] = dd
 					}
-				} else if dd.Name.Name == "discardOnKafkaError" || dd.Name.Name == "expectZeroSize" || strings.HasPrefix(dd.Name.Name, "readFetchResponseHeaderV") {
+				} else if canon := framingHelper(dd); canon != "" {
+					// the two framing helpers are recognised by SHAPE, whatever they are called
+					helperAlias[dd.Name.Name] = canon
+					connFns[canon] = dd
+				} else if strings.HasPrefix(dd.Name.Name, "readFetchResponseHeaderV") {
 					connFns[dd.Name.Name] = dd
 				}
 			case *ast.GenDecl:
@@ -1304,6 +1389,9 @@ func extractConnLegacy(repo, root string) error {
 			case *ast.SelectorExpr:
 				name = f.Sel.Name
 			}
+			if canon, ok := helperAlias[name]; ok {
+				name = canon
+			}
 			if helperNames[name] {
 				set[name] = true
 			}
@@ -1335,9 +1423,10 @@ func extractConnLegacy(repo, root string) error {
 	// body shapes of the two framing helpers
 	ez, dk := false, false
 	if fd := connFns["expectZeroSize"]; fd != nil {
+		szName := paramNames(fd)[0]
 		ast.Inspect(fd.Body, func(n ast.Node) bool {
 			if be, ok := n.(*ast.BinaryExpr); ok && be.Op == token.NEQ {
-				if id, ok := be.X.(*ast.Ident); ok && id.Name == "sz" {
+				if id, ok := be.X.(*ast.Ident); ok && id.Name == szName {
 					if lit, ok := be.Y.(*ast.BasicLit); ok && lit.Value == "0" {
 						ez = true
 					}
